@@ -295,3 +295,125 @@ Proof.
   - intros s Hs. rewrite mlookup_wf; auto. rewrite Hm. apply insert_absent_has. apply dedupe_keeps_ids.
     rewrite map_map. cbn. apply in_map_iff. exists s. auto.
 Qed.
+
+(* ---- Mapper.ToTree ---- *)
+Definition sub_ids (nid : N) (s : asub) : isub :=
+  match s with ASid x => ISid (uuid5 nid x) | ASet n o r => ISet n (uuid5 nid o) r end.
+Fixpoint tree_ids (nid : N) (t : atree) : itree :=
+  match t with ANode ty s cs => INode ty (option_map (sub_ids nid) s) (map (tree_ids nid) cs) end.
+Fixpoint tree_uids (t : itree) : list uid :=
+  match t with INode _ s cs => node_ids s ++ flat_map tree_uids cs end.
+Fixpoint tree_ns_ok (names : list bytes) (t : atree) : bool :=
+  match t with ANode _ s cs =>
+    match s with Some (ASet n _ _) => ns_known names n | _ => true end && forallb (tree_ns_ok names) cs end.
+Fixpoint ishape (t : itree) : list N := match t with INode ty _ cs => ty :: N.of_nat (length cs) :: flat_map ishape cs end.
+Fixpoint ashape (t : atree) : list N := match t with ANode ty _ cs => ty :: N.of_nat (length cs) :: flat_map ashape cs end.
+
+Section AInd.
+Variable P : atree -> Prop.
+Hypothesis H : forall ty s cs, Forall P cs -> P (ANode ty s cs).
+Fixpoint atree_ind' (t : atree) : P t :=
+  match t with ANode ty s cs =>
+    H ty s cs ((fix go (cs : list atree) : Forall P cs :=
+                  match cs with [] => Forall_nil _ | c :: r => Forall_cons _ (atree_ind' c) (go r) end) cs) end.
+End AInd.
+Section IInd.
+Variable P : itree -> Prop.
+Hypothesis H : forall ty s cs, Forall P cs -> P (INode ty s cs).
+Fixpoint itree_ind' (t : itree) : P t :=
+  match t with INode ty s cs =>
+    H ty s cs ((fix go (cs : list itree) : Forall P cs :=
+                  match cs with [] => Forall_nil _ | c :: r => Forall_cons _ (itree_ind' c) (go r) end) cs) end.
+End IInd.
+
+Definition tt_children (names : list bytes) (d : db) :=
+  fix go (cs : list itree) : res (list atree) :=
+    match cs with
+    | [] => ROk []
+    | c :: r => match ToTree names d c with
+                | RErr e => RErr e
+                | ROk c' => match go r with RErr e => RErr e | ROk r' => ROk (c' :: r') end
+                end
+    end.
+Lemma ToTree_unfold names d ty s cs : ToTree names d (INode ty s cs) =
+  match (match s with
+         | Some (ISet n _ _) => if ns_known names n then ROk tt else RErr E_NotFound
+         | _ => ROk tt end) with
+  | RErr e => RErr e
+  | ROk _ =>
+    match tt_children names d cs with
+    | RErr e => RErr e
+    | ROk cs' =>
+      let strs := MapUUIDsToStrings (node_ids s) d in
+      ROk (ANode ty (match s with
+                     | Some (ISid _) => Some (ASid (nth 0 strs []))
+                     | Some (ISet n _ r) => Some (ASet n (nth 0 strs []) r)
+                     | None => None end) cs')
+    end
+  end.
+Proof. reflexivity. Qed.
+Lemma tt_children_nil names d : tt_children names d [] = ROk []. Proof. reflexivity. Qed.
+Lemma tt_children_cons names d c r : tt_children names d (c :: r) =
+  match ToTree names d c with
+  | RErr e => RErr e
+  | ROk c' => match tt_children names d r with RErr e => RErr e | ROk r' => ROk (c' :: r') end
+  end.
+Proof. reflexivity. Qed.
+
+Lemma lookup_one d u : maps_wf (maps d) -> In u (map fst (maps d)) -> nth 0 (MapUUIDsToStrings [u] d) [] = snd u.
+Proof.
+  intros Hwf Hin. unfold MapUUIDsToStrings. rewrite batch_lookup; [|apply page_size_pos|apply Hwf].
+  cbn [map nth]. now apply mlookup_wf.
+Qed.
+
+(* what the engine built from ids of names comes back as exactly those names, at every node, in the same shape *)
+Theorem ToTree_roundtrip names nid d t :
+  maps_wf (maps d) -> (forall u, In u (tree_uids (tree_ids nid t)) -> In u (map fst (maps d))) ->
+  tree_ns_ok names t = true -> ToTree names d (tree_ids nid t) = ROk t.
+Proof.
+  intros Hwf. induction t as [ty s cs IH] using atree_ind'. intros Hin Hns.
+  cbn [tree_ids]. rewrite ToTree_unfold.
+  cbn [tree_ns_ok] in Hns. apply andb_true_iff in Hns as [Hn Hcs].
+  cbn [tree_ids tree_uids] in Hin.
+  assert (Hch : tt_children names d (map (tree_ids nid) cs) = ROk cs).
+  { assert (Hin' : forall u, In u (flat_map tree_uids (map (tree_ids nid) cs)) -> In u (map fst (maps d)))
+      by (intros u Hu; apply Hin, in_or_app; now right).
+    clear Hin Hn. induction cs as [|c r IHr]; [reflexivity|].
+    cbn [map]. rewrite tt_children_cons. cbn [forallb] in Hcs. apply andb_true_iff in Hcs as [Hc Hr].
+    inversion IH as [|? ? IHc IHrest]; subst.
+    rewrite IHc; [|intros u Hu; apply Hin'; cbn [map flat_map]; apply in_or_app; now left|exact Hc].
+    rewrite IHr; auto. intros u Hu; apply Hin'; cbn [map flat_map]; apply in_or_app; now right. }
+  destruct s as [[x|n o r]|]; cbn [option_map sub_ids node_ids] in *.
+  - rewrite Hch. cbn zeta. rewrite lookup_one; [reflexivity|exact Hwf|apply Hin; now left].
+  - rewrite Hn, Hch. cbn zeta. rewrite lookup_one; [reflexivity|exact Hwf|apply Hin; now left].
+  - now rewrite Hch.
+Qed.
+
+(* whatever the mapping table holds: the type and the number of children of every node are untouched, and the only
+   refusal is an unknown namespace of a subject set *)
+Theorem ToTree_shape names d t a : ToTree names d t = ROk a -> ashape a = ishape t.
+Proof.
+  revert a. induction t as [ty s cs IH] using itree_ind'. intros a H. rewrite ToTree_unfold in H.
+  destruct (match s with Some (ISet n _ _) => if ns_known names n then ROk tt else RErr E_NotFound | _ => ROk tt end); [|discriminate].
+  destruct (tt_children names d cs) as [cs'|] eqn:Hch; [|discriminate].
+  cbn zeta in H. inversion H; subst a. cbn [ashape ishape].
+  assert (G : length cs' = length cs /\ flat_map ashape cs' = flat_map ishape cs).
+  { clear H. revert cs' Hch. induction cs as [|c r IHr]; intros cs' Hch.
+    - rewrite tt_children_nil in Hch. inversion Hch; auto.
+    - rewrite tt_children_cons in Hch. inversion IH as [|? ? IHc IHrest]; subst.
+      destruct (ToTree names d c) as [c'|] eqn:Hc; [|discriminate].
+      destruct (tt_children names d r) as [r'|] eqn:Hr; [|discriminate].
+      inversion Hch; subst cs'. destruct (IHr IHrest r' eq_refl) as [Hl Hf].
+      cbn [length flat_map]. rewrite Hl, Hf, (IHc c' eq_refl). auto. }
+  destruct G as [-> ->]. reflexivity.
+Qed.
+Theorem ToTree_rejects names d t e : ToTree names d t = RErr e -> e = E_NotFound.
+Proof.
+  induction t as [ty s cs IH] using itree_ind'. intros H. rewrite ToTree_unfold in H.
+  destruct s as [[u|n o r]|]; try destruct (ns_known names n); try (inversion H; reflexivity);
+  (destruct (tt_children names d cs) as [cs'|e'] eqn:Hch; [discriminate|]; inversion H; subst e';
+   clear H; induction cs as [|c r0 IHr]; [rewrite tt_children_nil in Hch; discriminate|];
+   rewrite tt_children_cons in Hch; inversion IH as [|? ? IHc IHrest]; subst;
+   destruct (ToTree names d c) as [c'|e1]; [|inversion Hch; subst; now apply IHc];
+   destruct (tt_children names d r0) as [r'|e2]; [discriminate|]; inversion Hch; subst; now apply IHr).
+Qed.
